@@ -33,7 +33,12 @@ META = {
         "real code are run on every registered pass class x generated option values, on generated "
         "pipelines, on every string up to a length bound over a 14-character alphabet (also behind "
         "the prefixes `a{` and `a{b=`) and on fuzzed strings, and compared with the Lean driver "
-        "token by token / value by value / error message and position."
+        "token by token / value by value / error message and position. Direct oracle only (no Lean "
+        "counterpart: the model's from_spec is a pure function, so this is a fact about the Python "
+        "objects): the spec parsed from a text is a value - from_spec leaves it exactly as parsed "
+        "(name, option order, values, printed text), also when it ends in an option error, and a second "
+        "from_spec of the same parsed spec / a second instantiation of the same parsed pipeline / a second "
+        "PassPipeline.parse_spec of the same text gives the same passes or the same error."
     ),
     "technique": "Lean 4 proofs on a hand model + bounded-exhaustive and random differential correspondence + direct round-trip/totality oracle on the real classes",
     "level_note": (
@@ -48,7 +53,11 @@ META = {
         "tuple[T, ...], unions of these, optional); `from_spec` of a class whose __post_init__ "
         "rejects the value is not counted. Two ambiguities of the text format itself are known "
         "findings, not repaired: `()` for a `tuple | None` field reads back as None, and a 1-tuple "
-        "`(x,)` in a union that also admits `x` alone reads back as `x`."
+        "`(x,)` in a union that also admits `x` alone reads back as `x`. 'Parses back into an equal "
+        "pass' is read as a statement about the text: whenever the spec parsed from it is converted - the "
+        "first time or again - the pass is equal, so a conversion that consumes or edits the parsed spec "
+        "is a failure even if the first result is right; no demand is made on HOW a `-` spelled option "
+        "name converts, only that converting does not change the spec."
     ),
     "rule": (
         "spec level: generated ArgSpec with 0-4 parameters, 0-4 values each (ints incl. negative/huge, "
@@ -61,7 +70,12 @@ META = {
         "non-trivial = at least one field differs from its default. pipelines: 1-5 generated passes "
         "joined by ','. strings: every string of length <= L over 14 characters (also after prefixes "
         "`a{` and `a{b=`), plus random strings and mutations of printed pipelines; non-trivial = "
-        "lexes to >= 3 tokens. Distinct = distinct text."
+        "lexes to >= 3 tokens. Distinct = distinct text. reuse: every round trip converts its parsed spec "
+        "twice and compares the spec before/after; per class, the specs of 8 instances in 8 typed variants "
+        "(as printed, `-` option names, unknown option first/last/in the middle, an option missing, values "
+        "of another type, options reversed: mostly option errors); every spec parsed from an enumerated or "
+        "random string that names a registered pass; every generated pipeline parsed once and instantiated "
+        "twice, and given to PassPipeline.parse_spec twice."
     ),
     "trusted_base": [
         "correspondence harness harness/props/c18.py (differential, bounded-exhaustive + random)",
@@ -88,6 +102,8 @@ SIG_EMPTY_UNION = "empty tuple rejected for a union that contains a tuple type"
 SIG_EMPTY_NONE = "empty tuple for an optional tuple field reads back as None"
 SIG_ONE_TUPLE = "1-tuple collapses to its element when the element alone satisfies the union type"
 SIG_OTHER = "printed spec does not parse back to an equal value"
+SIG_REUSE = "converting a parsed spec alters it or gives a different result the second time"
+SIG_REPARSE = "parsing the same pipeline text a second time gives a different result"
 
 MSG_IDS = {
     "Unknown token": "unknown-token",
@@ -615,6 +631,48 @@ def same_instance(a: Any, b: Any) -> bool:
     return all(eq(p, q) for p, q in zip(inst_values(a), inst_values(b)))
 
 
+def spec_snapshot(spec: Any) -> tuple:
+    """everything observable of an ArgSpec: name, parameter order, canonical values, printed text"""
+    try:
+        text = str(spec)
+    except Exception as e:  # noqa: BLE001
+        text = "raise " + core.exc_name(e)
+    return (spec.name, tuple((k, tuple(canon_val(v) for v in vs)) for k, vs in spec.parameters.items()), text)
+
+
+def convert_outcome(cls: type, spec: Any) -> Any:
+    """instance, or 'raise X: message' (option errors are ValueErrors)"""
+    try:
+        return cls.from_pass_spec(spec)
+    except Exception as e:  # noqa: BLE001
+        return "raise " + core.exc_name(e) + ": " + str(e)[:80]
+
+
+def same_outcome(a: Any, b: Any) -> bool:
+    if isinstance(a, str) or isinstance(b, str):
+        return isinstance(a, str) and isinstance(b, str) and a == b
+    return same_instance(a, b)
+
+
+def convert_reusing(cls: type, spec: Any) -> tuple[Any, str | None]:
+    """`from_pass_spec` on ONE parsed spec, used the way a value is used: converted, looked at, converted
+    again.  -> (first outcome, None | description of how the spec / the second outcome differ).
+    The text determines the pass: a spec that is changed by being converted, or that converts to something
+    else the second time, makes `parse` of the printed text yield an unequal pass on that later use."""
+    before = spec_snapshot(spec)
+    first = convert_outcome(cls, spec)
+    after = spec_snapshot(spec)
+    if after != before:
+        return first, f"the parsed spec `{before[2]}` reads `{after[2]}` after from_spec"
+    second = convert_outcome(cls, spec)
+    if not same_outcome(first, second):
+        d = lambda o: o if isinstance(o, str) else describe_values(o)  # noqa: E731
+        return first, f"the second from_spec of the same parsed spec gives {d(second)}, the first gave {d(first)}"
+    if spec_snapshot(spec) != before:
+        return first, f"the parsed spec `{before[2]}` reads `{spec_snapshot(spec)[2]}` after two from_spec calls"
+    return first, None
+
+
 def pass_roundtrip(inst: Any, include_default: bool) -> tuple[str, Any, str | None]:
     """(text, result instance or 'raise X', failing stage)"""
     from xdsl.utils.arg_spec import parse_pipeline
@@ -629,10 +687,11 @@ def pass_roundtrip(inst: Any, include_default: bool) -> tuple[str, Any, str | No
         return text, "raise " + core.exc_name(e), "parse"
     if len(specs) != 1:
         return text, f"{len(specs)} specs", "parse"
-    try:
-        back = cls.from_pass_spec(specs[0])
-    except Exception as e:  # noqa: BLE001
-        return text, "raise " + core.exc_name(e) + ": " + str(e)[:80], "from_spec"
+    back, reuse = convert_reusing(cls, specs[0])
+    if isinstance(back, str):
+        return text, back, "from_spec"
+    if reuse is not None:
+        return text, reuse, "reuse"
     return text, back, None
 
 
@@ -647,12 +706,16 @@ def report_pass_failure(ctx: core.Ctx, inst: Any, include_default: bool) -> None
     fs = init_fields(cls)
     base_kwargs = {f.name: v for (f, _), v in zip(fs, inst_values(inst))}
 
+    reuse = pass_roundtrip(inst, include_default)[2] == "reuse"
+
     def fails(kwargs: dict) -> bool:
         try:
             i2 = cls(**kwargs)
         except Exception:  # noqa: BLE001
             return False
         t, back, stage = pass_roundtrip(i2, include_default)
+        if reuse:  # stay on this failure: shrinking must not wander to values the field type does not admit
+            return stage == "reuse"
         return stage is not None or not same_instance(i2, back)
 
     # reset fields to defaults / simple values one by one while it still fails
@@ -697,12 +760,20 @@ def report_pass_failure(ctx: core.Ctx, inst: Any, include_default: bool) -> None
             break
     if culprit is None:
         vals = [x for v in inst_values(small) for x in (v if isinstance(v, tuple) else (v,))]
-        if stage == "parse" and isinstance(back, str) and not back.startswith("raise ArgSpecParseError"):
+        if stage == "reuse":
+            site, sig = SITE_FROM, SIG_REUSE
+        elif stage == "parse" and isinstance(back, str) and not back.startswith("raise ArgSpecParseError"):
             site, sig = SITE_ELEM, SIG_EXC
         elif any(isinstance(x, str) and val_interesting(x) for x in vals):
             site, sig = SITE_PRINT, SIG_STR
         elif any(isinstance(x, float) and val_interesting(x) for x in vals):
             site, sig = SITE_PRINT, SIG_FLOAT
+    if stage == "reuse":
+        ctx.fail(site, sig,
+                 {"level": "pass", "class": cls.name, "include_default": include_default, "values": describe_values(small)},
+                 f"{cls.name}: printed `{text}`, parsed once: {back} (the spec parsed from the printed text must keep giving an equal pass)",
+                 back, describe_values(small))
+        return
     ctx.fail(site, sig,
              {"level": "pass", "class": cls.name, "include_default": include_default, "values": describe_values(small)},
              f"{cls.name}: printed `{text}`; reading it back gives {back if isinstance(back, str) else describe_values(back)}"
@@ -761,6 +832,46 @@ OPT_ERRS = [("Spec name mismatch", "name-mismatch"), ("requires argument", "miss
             ("Provided arguments", "unknown-args")]
 
 
+def spec_variants(sp: Any) -> list[Any]:
+    """specs a user could have typed for the same class: option names with `-` (normalised by from_spec),
+    an option the class does not have, a missing option, a value of another type, the options reversed.
+    Some convert, most are option errors; all of them must come out of from_spec as they went in."""
+    from xdsl.utils.arg_spec import ArgSpec
+
+    items = list(sp.parameters.items())
+    out = [ArgSpec(sp.name, dict(items))]
+    if any("_" in k for k, _ in items):
+        out.append(ArgSpec(sp.name, {k.replace("_", "-"): v for k, v in items}))
+    out.append(ArgSpec(sp.name, dict(items + [("vp_no_such_option", (1,))])))
+    out.append(ArgSpec(sp.name, dict([("vp-no-such-option", ())] + items)))
+    if items:
+        out.append(ArgSpec(sp.name, dict(items[1:])))
+        out.append(ArgSpec(sp.name, dict(items[:-1] + [(items[-1][0], ("vp zz", 1, 2.5))])))
+        out.append(ArgSpec(sp.name, dict(items[:1] + [("vp_no_such_option", ())] + items[1:])))
+    if len(items) > 1:
+        out.append(ArgSpec(sp.name, dict(reversed(items))))
+    return out
+
+
+def check_spec_reuse(ctx: core.Ctx, cls: type, spec: Any) -> bool:
+    """reuse oracle on one (class, spec); reports shrunk to the fewest options. -> ok"""
+    from xdsl.utils.arg_spec import ArgSpec
+
+    ctx.ev()
+    items = list(spec.parameters.items())  # as parsed: a faulty from_spec may alter `spec`
+    _, why = convert_reusing(cls, spec)
+    if why is None:
+        return True
+    if len(items) > 1:
+        small = core.shrink_list(items, lambda c: convert_reusing(cls, ArgSpec(spec.name, dict(c)))[1] is not None)
+        why2 = convert_reusing(cls, ArgSpec(spec.name, dict(small)))[1]
+        if why2 is not None:
+            items, why = small, why2
+    ctx.fail(SITE_FROM, SIG_REUSE, {"level": "convert", "class": cls.name, "spec": enc_spec(spec.name, dict(items))},
+             f"{cls.name}.from_spec: {why}", why, "the spec is unchanged and converts to the same result again")
+    return False
+
+
 def run_pass_level(ctx: core.Ctx, per_class: int) -> list[Any]:
     from xdsl.utils.arg_spec import ArgSpec, _convert_arg_to_type
 
@@ -805,6 +916,13 @@ def run_pass_level(ctx: core.Ctx, per_class: int) -> list[Any]:
                 i = gen_instance(rng, cls, rng.choice([0.0, 0.3, 0.7]))
                 if i is not None:
                     insts.append(i)
+        reuse_ok = True
+        for inst in insts[:6] + insts[-2:]:
+            for incl in (False, True):
+                for var in spec_variants(inst.pipeline_pass_spec(include_default=incl)):
+                    if reuse_ok and not any(isinstance(v, str) and has_surrogate(v) for vs in var.parameters.values() for v in vs):
+                        ctx.count("pass_level.reuse_variants")
+                        reuse_ok = check_spec_reuse(ctx, cls, var)
         for inst in insts:
             made.append(inst)
             vals = inst_values(inst)
@@ -938,6 +1056,15 @@ def run_pipelines(ctx: core.Ctx, made: list[Any], n: int) -> None:
             ctx.fail(SITE_PIPE, "pipeline of individually round-tripping passes does not round-trip",
                      {"level": "pipeline", "text": enc_text(",".join(str(p.pipeline_pass_spec()) for p in small))},
                      f"pipeline text {text!r} does not give back the same passes", obs, [describe_values(p) for p in ps])
+        if ok:
+            why = pipeline_reuse_problem(avail, classes, text, ps)
+            if why is not None:
+                small = core.shrink_list(ps, lambda c: pipeline_ok(avail, c) and pipeline_reuse_problem(
+                    avail, classes, ",".join(str(p.pipeline_pass_spec()) for p in c), c) is not None)
+                stext = ",".join(str(p.pipeline_pass_spec()) for p in small)
+                why = pipeline_reuse_problem(avail, classes, stext, small) or why
+                ctx.fail(SITE_FROM if why[0] == SIG_REUSE else SITE_PIPE, why[0], {"level": "pipeline", "text": enc_text(stext)},
+                         f"pipeline text {stext!r}: {why[1]}", why[1], [describe_values(p) for p in small])
         if not has_surrogate(text):
             o, specs = py_parse(text)
             lines.append("parse " + enc_text(text))
@@ -953,6 +1080,52 @@ def run_pipelines(ctx: core.Ctx, made: list[Any], n: int) -> None:
             ctx.mismatch("correspondence:C18/arg_spec.pipeline", {"level": "string", "text": enc_text(inp if inp is not None else impl)}, impl, mo)
             break
     ctx.sample({"level": "pipeline", "text": expect[0][0] if expect else ""})
+
+
+def pipeline_reuse_problem(avail: dict, classes: dict, text: str, ps: list[Any] | None) -> tuple[str, str] | None:
+    """the pipeline text parsed ONCE and instantiated twice (one parsed pipeline run on two modules), and the
+    text given to PassPipeline.parse_spec twice: every use yields the same passes (`ps` when given) and leaves
+    the parsed specs as they were.  -> None | (signature, description)"""
+    from xdsl.passes import PassPipeline
+    from xdsl.utils.arg_spec import parse_pipeline
+
+    try:
+        specs = tuple(parse_pipeline(text))
+    except BaseException as e:  # noqa: BLE001
+        if isinstance(e, (KeyboardInterrupt, SystemExit)):
+            raise
+        return None  # reported by the round-trip / totality oracles
+    before = [spec_snapshot(sp) for sp in specs]
+    rounds = []
+    for _ in range(2):
+        rounds.append([convert_outcome(classes[sp.name], sp) if sp.name in classes else "unregistered" for sp in specs])
+        after = [spec_snapshot(sp) for sp in specs]
+        if after != before:
+            i = next(i for i, (a, b) in enumerate(zip(before, after)) if a != b)
+            return SIG_REUSE, f"parsed spec {i} `{before[i][2]}` reads `{after[i][2]}` after from_spec"
+    d = lambda o: o if isinstance(o, str) else describe_values(o)  # noqa: E731
+    for i, (a, b) in enumerate(zip(*rounds)):
+        if not same_outcome(a, b):
+            return SIG_REUSE, f"instantiating the parsed pipeline a second time gives {d(b)} for spec {i} `{before[i][2]}`, the first time {d(a)}"
+    if ps is not None and (len(ps) != len(specs) or not all(same_outcome(a, b) for a, b in zip(ps, rounds[0]))):
+        return None  # not a round-tripping pipeline: the round-trip oracle's business
+    outs = []
+    for _ in range(2):
+        try:
+            outs.append(list(PassPipeline.parse_spec(avail, text).passes))
+        except BaseException as e:  # noqa: BLE001
+            if isinstance(e, (KeyboardInterrupt, SystemExit)):
+                raise
+            outs.append("raise " + core.exc_name(e) + ": " + str(e)[:80])
+    a, b = outs
+    if isinstance(a, str) or isinstance(b, str):
+        same = a == b
+    else:
+        same = len(a) == len(b) and all(same_instance(x, y) for x, y in zip(a, b))
+    if not same:
+        dd = lambda o: o if isinstance(o, str) else [d(x) for x in o]  # noqa: E731
+        return SIG_REPARSE, f"PassPipeline.parse_spec gives {dd(b)} the second time, {dd(a)} the first"
+    return None
 
 
 def pipeline_ok(avail: dict, ps: list[Any]) -> bool:
@@ -1015,6 +1188,7 @@ def run_strings(ctx: core.Ctx, maxlen: int, prefixed_len: int, nrandom: int, pri
     avail = {name: (lambda c=c: c) for name, c in classes.items()}
     lines: list[str] = []
     impl: list[Any] = []
+    reuse_on = True
     for idx, s in enumerate(cases):
         ctx.ev()
         toks = py_lex(s)
@@ -1027,6 +1201,14 @@ def run_strings(ctx: core.Ctx, maxlen: int, prefixed_len: int, nrandom: int, pri
                      f"parse_pipeline({small!r}) raised {py_parse(small)[0]} (only ArgSpecParseError is a pipeline parse error)", py_parse(small)[0], "ok | err")
         if isinstance(obs, str) and obs.startswith("err other:"):
             ctx.fail(SITE_PARSE, "unlisted ArgSpecParseError message", {"level": "string", "text": enc_text(s)}, obs, obs, "one of the nine messages")
+        # every parsed spec naming a registered pass: conversion (mostly an option error here) leaves it intact
+        if specs is not None and reuse_on:
+            for sp in specs:
+                if sp.name in classes:
+                    ctx.count("strings.reuse_checked")
+                    if not check_spec_reuse(ctx, classes[sp.name], sp):
+                        reuse_on = False
+                        break
         # PassPipeline.parse_spec: parse error or option error only (sampled: it constructs passes)
         if specs is not None and idx % 7 == 0:
             try:
@@ -1108,6 +1290,18 @@ def replay(ctx: core.Ctx, body: dict) -> int:
         print("implementation:", back if isinstance(back, str) else describe_values(back))
         print("expected      :", describe_values(inst))
         bad = stage is not None or not same_instance(inst, back)
+    elif lvl == "convert":
+        from xdsl.utils.arg_spec import ArgSpec
+
+        cls = all_classes()[case["class"]]
+        name, params = dec_spec(Words(case["spec"]))
+        spec = ArgSpec(name, dict(params))
+        print("spec          :", str(spec))
+        first, why = convert_reusing(cls, spec)
+        print("from_spec     :", first if isinstance(first, str) else describe_values(first))
+        print("spec afterwards:", str(spec))
+        print("used twice    :", why or "spec unchanged, same result again")
+        bad = why is not None
     elif lvl in ("string", "pipeline", "pipeline-string"):
         s = dec_text(case["text"])
         obs, _ = py_parse(s)
@@ -1129,6 +1323,9 @@ def replay(ctx: core.Ctx, body: dict) -> int:
                 print("passes        :", [(type(g).name, describe_values(g)) for g in got])
                 back = ",".join(str(g.pipeline_pass_spec()) for g in got)
                 bad = bad or (lvl == "pipeline" and back != s)
+                why = pipeline_reuse_problem({n: (lambda c=c: c) for n, c in classes.items()}, classes, s, None)
+                print("used twice    :", why[1] if why else "same passes, specs unchanged")
+                bad = bad or why is not None
             except BaseException as e:  # noqa: BLE001
                 print("parse_spec    : raise", core.exc_name(e))
                 bad = bad or not isinstance(e, ValueError) and core.exc_name(e) != "ArgSpecParseError"
